@@ -394,7 +394,7 @@ func (t *Table) unlinks(sb *Symbol) {
 
 			var ports []spec.Port
 			for _, port := range references[port.Port] {
-				if port.ID != sb.ID() && port.Port != name {
+				if port.ID != sb.ID() || port.Port != name {
 					ports = append(ports, port)
 				}
 			}
